@@ -19,6 +19,8 @@ type arith struct {
 	consts constEnv
 	names  map[string]int // local variables and parameters → number, in order of first appearance
 	order  []string
+	rels   []string // files in which other methods of the receiver are looked up (for inlining a test-and-return helper)
+	depth  int
 }
 
 var knownFld = map[string]bool{"tokens": true, "capacity": true, "refillRate": true, "idealRate": true, "lastRefill": true, "penaltyUntil": true, "failureCount": true}
@@ -261,12 +263,84 @@ func (a *arith) cexp(e ast.Expr) string {
 
 func (a *arith) stmts(list []ast.Stmt) []string {
 	var out []string
-	for _, st := range list {
+	for i, st := range list {
+		// `if recv.helper() { … }` where helper is another method of the receiver that only tests and returns true / false: the helper is
+		// inlined (its `return true` continues with the body of the if and what follows it, its `return false` with what follows the if)
+		if ifs, ok := st.(*ast.IfStmt); ok && ifs.Init == nil && ifs.Else == nil && a.depth < 2 {
+			if call, ok := ifs.Cond.(*ast.CallExpr); ok && len(call.Args) == 0 {
+				if sel, ok := call.Fun.(*ast.SelectorExpr); ok {
+					if id, ok := sel.X.(*ast.Ident); ok && id.Name == a.recv && a.recv != "" && sel.Sel.Name != "refill" {
+						if callee := a.findMethod(sel.Sel.Name); callee != nil && callee.Body != nil && callee.Type.Results != nil && len(callee.Type.Results.List) == 1 && nospace(callee.Type.Results.List[0].Type) == "bool" &&
+							callee.Recv != nil && len(callee.Recv.List) == 1 && len(callee.Recv.List[0].Names) == 1 && callee.Recv.List[0].Names[0].Name == a.recv {
+							a.depth++
+							rest := a.stmts(list[i+1:])
+							onTrue := append(a.stmts(ifs.Body.List), rest...)
+							inl, ok := a.inlineBool(callee.Body.List, onTrue, rest)
+							a.depth--
+							if ok {
+								return append(out, inl...)
+							}
+						}
+					}
+				}
+			}
+		}
 		if t := a.stmt(st); t != "" {
 			out = append(out, t)
 		}
 	}
 	return out
+}
+
+func (a *arith) findMethod(name string) *ast.FuncDecl {
+	for _, rel := range a.rels {
+		if f := load(rel); f != nil {
+			for _, d := range f.Decls {
+				if fd, ok := d.(*ast.FuncDecl); ok && fd.Recv != nil && fd.Name.Name == name {
+					return fd
+				}
+			}
+		}
+	}
+	return nil
+}
+
+// inlineBool translates the statements of a test-and-return helper; onTrue / onFalse are the (already translated) continuations
+func (a *arith) inlineBool(list []ast.Stmt, onTrue, onFalse []string) ([]string, bool) {
+	if len(list) == 0 {
+		return nil, false
+	}
+	switch x := list[0].(type) {
+	case *ast.ReturnStmt:
+		if len(x.Results) == 1 {
+			switch nospace(x.Results[0]) {
+			case "true":
+				return onTrue, true
+			case "false":
+				return onFalse, true
+			}
+		}
+		return nil, false
+	case *ast.IfStmt:
+		if x.Init == nil && x.Else == nil && len(x.Body.List) > 0 {
+			if _, endsInReturn := x.Body.List[len(x.Body.List)-1].(*ast.ReturnStmt); endsInReturn {
+				th, ok1 := a.inlineBool(x.Body.List, onTrue, onFalse)
+				el, ok2 := a.inlineBool(list[1:], onTrue, onFalse)
+				if ok1 && ok2 {
+					return []string{".ite " + a.cexp(x.Cond) + " " + block(th) + " " + block(el)}, true
+				}
+				return nil, false
+			}
+		}
+	}
+	rest, ok := a.inlineBool(list[1:], onTrue, onFalse)
+	if !ok {
+		return nil, false
+	}
+	if t := a.stmt(list[0]); t != "" {
+		return append([]string{t}, rest...), true
+	}
+	return rest, true
 }
 
 func (a *arith) assign(lhs ast.Expr, op token.Token, rhs ast.Expr, whole ast.Node) string {
@@ -464,7 +538,7 @@ func extractRateProg() {
 	s := newSection("RateProg")
 	const rl = "internal/pkg/archiver/ratelimiter/ratelimiter.go"
 	const adj = "internal/pkg/archiver/ratelimiter/adjust.go"
-	a := &arith{fields: structFields(rl, "tokenBucket"), consts: fileConsts(rl)}
+	a := &arith{fields: structFields(rl, "tokenBucket"), consts: fileConsts(rl), rels: []string{rl, adj}}
 
 	a.method(s, "refill", rl, "tokenBucket.refill")
 	a.method(s, "adjustOnFailure", adj, "tokenBucket.adjustOnFailure")
